@@ -340,7 +340,7 @@ func (p *parser) parseUnary() Expr {
 	t := p.peek()
 	if t.kind == "op" {
 		switch t.text {
-		case "!", "-":
+		case "!", "-", "&":
 			p.next()
 			return EUnary{t.text, p.parseUnary()}
 		case "*":
